@@ -396,10 +396,10 @@ func judgeBatch(r *base.Run, cands []string, site string, counts *[3]int64) {
 
 func checkC15(replay string) {
 	r := base.NewRun("C15")
-	r.Rule = "every candidate comment line is the doc comment of its own declaration in a synthetic file; the real ReadAllAnnotations / ReadIgnoreAnnotations results are compared with a hand-written recogniser: structured exhaustive lines = 8 prefixes (incl. commented-out annotations '// // @x', '/// @x') x 11 keywords/near-keywords x 4 separators x all argument token sequences of length <= N over a 15-token alphabet (N=3 quick, 4 thorough), plus fuzzed mutations of valid annotations, plus all attachment sites x keywords; distinct = distinct candidate lines judged with a determinate (non-FREE) reference verdict"
+	r.Rule = "every candidate comment line is the doc comment of its own declaration in a synthetic file; the real ReadAllAnnotations / ReadIgnoreAnnotations results are compared with a hand-written recogniser: structured exhaustive lines = 8 prefixes (incl. commented-out annotations '// // @x', '/// @x') x 15 keywords/near-keywords x 4 separators x all argument token sequences of length <= N over a 15-token alphabet (N=3 quick, 4 thorough), plus fuzzed mutations of valid annotations, plus all attachment sites x keywords; distinct = distinct candidate lines judged with a determinate (non-FREE) reference verdict"
 	r.Assume = []string{"recogniser written from the statement (space/tab blanks, longest comma-list prefix followed by end or blank)", "FREE: trailing-comma lists, names starting with a digit, white space other than space/tab, non-ASCII"}
 	prefixes := []string{"", " ", "\t", "  ", "x ", "/", "// ", "/ "}
-	kws := []string{"@implements", "@constructor", "@immutable", "@testonly", "@mutable", "@packageonly", "@ignore", "@Immutable", "@immutablex", "@ignored", "@"}
+	kws := []string{"@implements", "@constructor", "@immutable", "@testonly", "@mutable", "@packageonly", "@ignore", "@Immutable", "@immutablex", "@ignored", "@", "@Constructor", "@PACKAGEONLY", "@Testonly", "@Ignore"}
 	seps := []string{"", " ", "\t", "  "}
 	toks := []string{" ", "\t", "&", ".", ",", "New", "_x1", "io", "a/b-c.d", "IMM01", "imm", "9a", "$", "@constructor", "@testonly"}
 	maxLen := r.Pick(3, 4)
@@ -466,7 +466,7 @@ func checkC15(replay string) {
 	// fuzz: mutations of valid annotations
 	nFuzz := r.Pick(60000, 2000000)
 	seeds := []string{"// @immutable", "// @testonly", "// @mutable", "// @constructor New, Create", "// @constructor New", "// @implements &io.Reader", "// @implements Shape extra text",
-		"// @packageonly a, github.com/x/y-z.v2", "// @packageonly", "// @ignore IMM01, ctor", "// @ignore ALL because", "//@immutable", "//\t@constructor\tA ,B", "// @immutable - unlike @constructor, no args", "// @packageonly (see also @testonly)", "// @testonly @immutable"}
+		"// @packageonly a, github.com/x/y-z.v2", "// @packageonly", "// @ignore IMM01, ctor", "// @Constructor New is not @constructor", "// @Packageonly a/b see @packageonly", "// @IGNORE IMM01 or @ignore", "// @ignore ALL because", "//@immutable", "//\t@constructor\tA ,B", "// @immutable - unlike @constructor, no args", "// @packageonly (see also @testonly)", "// @testonly @immutable"}
 	alphabet := " \t,&.@/_-$;:()abzAZ09é\f\v"
 	nb := (nFuzz + batch - 1) / batch
 	base.Par(nb, 0, func(bi int) {
